@@ -7,11 +7,23 @@ from . import runner
 
 
 def main():
+    if sys.argv[1] == '--item':
+        # internal: print the violation keys of one work item, run in this fresh interpreter
+        pid, tier, idx = sys.argv[2], sys.argv[3], int(sys.argv[4])
+        vs = runner.run_one_item(pid, tier, idx)
+        print(json.dumps([runner.viol_key(v) for v in vs]))
+        sys.exit(0)
     path = sys.argv[1]
     with open(path) as f:
         rec = json.load(f)
     mod = runner.load_check(rec['property'])
-    msgs = mod.replay(rec['case'])
+    case = rec['case']
+    if isinstance(case, dict) and case.get('kind') == '_item':
+        # history-dependent violation: replay the whole (deterministic) work item it occurred in
+        vs = runner.run_one_item(rec['property'], case['tier'], case['item'])
+        msgs = [v.get('msg') for v in vs if runner.viol_key(v) == case['key']]
+    else:
+        msgs = mod.replay(case)
     if msgs:
         print(f"VIOLATION property={rec['property']} replay={path}")
         for m in msgs:
